@@ -92,7 +92,13 @@ def call_block(t, m, get_w, get_r, ind="                "):
     nd = " || ".join([a.nondefault() for a in m.args if a.wrapped] + ([m.ret.nondefault()] if m.ret.wrapped else [])) or "false"
     L.append(ind + get_w)
     L.append(ind + get_r)
+    inside = isinstance(m.ret, gen.RChild) and m.ret.mode != "owned"
+    if inside:
+        # the object's own extent: a borrowed wrapped return lives in the object's temporary storage
+        L.append(f"{ind}let span_ = (&*ow as *const _ as *const u8 as usize, ::core::mem::size_of_val(&*ow));")
     L.append(f"{ind}let rw = {call_expr(m, 'ow', 'w')};")
+    if inside:
+        L.append(f"{ind}{{ let (ra_, rs_) = (&*rw as *const _ as *const u8 as usize, ::core::mem::size_of_val(&*rw)); if !(ra_ >= span_.0 && ra_ + rs_ <= span_.0 + span_.1) {{ return Err(Fail::new(\"C04:rettmp-outside-object\", format!(\"method {{}}: the wrapped object handed out by reference occupies bytes {{:#x}}..{{:#x}}, which is not inside the object it was borrowed from ({{:#x}}..{{:#x}}): its temporary-return slot is too small or misplaced\", mname, ra_, ra_ + rs_, span_.0, span_.0 + span_.1))); }} }}")
     L.append(f"{ind}let rr = {call_expr(m, 'or_', 'r')};")
     if m.recv == "own":
         L.append(f"{ind}fl.transfers += 1;")
